@@ -643,6 +643,9 @@ func runC04(c *fw.Ctx) {
 	// hand-written expansion (identifier -> selector) with the points Start, X (after the dot) and End
 	c04Qualified(c)
 
+	// decorations on and around an import alias that the import manager has to rename
+	c04AliasRename(c)
+
 	// two decorated files restored by one FileRestorer and printed only afterwards: every comment
 	// exactly once, in the output of its own file
 	c04Reuse(c)
@@ -855,5 +858,103 @@ func c04Reuse(c *fw.Ctx) {
 			}
 			c.Nontrivial(id)
 		})
+	}
+}
+
+// c04AliasRename: an aliased import spec whose alias identifier and spec points carry decorations;
+// the import manager changes the alias (an override in FileRestorer.Alias, or a newly referenced
+// package that claims the alias as its name). Every comment must still be printed exactly once.
+func c04AliasRename(c *fw.Ctx) {
+	if c.Shard != 0 {
+		return
+	}
+	names := map[string]string{"example.com/x/foo": "foo", "example.com/y/bar": "bar", "example.com/z/f1": "f1", "example.com/z/b1": "b1"}
+	srcs := map[string]string{
+		"grouped":   "package p\n\nimport (\n\tf1 \"example.com/x/foo\"\n\tb1 \"example.com/y/bar\"\n)\n\nfunc f() {\n\tf1.A()\n\tb1.B()\n}\n",
+		"ungrouped": "package p\n\nimport f1 \"example.com/x/foo\"\nimport b1 \"example.com/y/bar\"\n\nfunc f() {\n\tf1.A()\n\tb1.B()\n}\n",
+		"single":    "package p\n\nimport f1 \"example.com/x/foo\"\n\nfunc f() {\n\tf1.A()\n}\n",
+	}
+	for _, shape := range []string{"grouped", "single", "ungrouped"} {
+		for target := 0; target < 2; target++ {
+			if shape == "single" && target == 1 {
+				continue
+			}
+			for _, mode := range []string{"none", "override", "override-all", "conflict"} {
+				for mask := 1; mask < 32; mask++ {
+					id := fmt.Sprintf("alias-rename:%s/%d/%s/%d", shape, target, mode, mask)
+					c.Case(id, func() {
+						d := decorator.NewDecoratorWithImports(token.NewFileSet(), "example.com/self", goast.WithResolver(simple.New(names)))
+						f, err := d.Parse(srcs[shape])
+						if err != nil {
+							return
+						}
+						var specs []*dst.ImportSpec
+						dst.Inspect(f, func(n dst.Node) bool {
+							if is, ok := n.(*dst.ImportSpec); ok {
+								specs = append(specs, is)
+							}
+							return true
+						})
+						if target >= len(specs) || specs[target].Name == nil {
+							return
+						}
+						sp := specs[target]
+						points := []struct {
+							name string
+							at   *dst.Decorations
+						}{{"ImportSpec.Start", &sp.Decs.Start}, {"Ident(alias).Start", &sp.Name.Decs.Start}, {"Ident(alias).End", &sp.Name.Decs.End}, {"ImportSpec.Name", &sp.Decs.Name}, {"ImportSpec.End", &sp.Decs.End}}
+						texts := map[string]string{}
+						for k, pt := range points {
+							if mask&(1<<uint(k)) != 0 {
+								t := fmt.Sprintf("/*al%d*/", k)
+								pt.at.Append(t)
+								texts[t] = pt.name
+							}
+						}
+						path := []string{"example.com/x/foo", "example.com/y/bar"}[target]
+						old := sp.Name.Name
+						fr := decorator.NewRestorerWithImports("example.com/self", simple.New(names)).FileRestorer()
+						switch mode {
+						case "override":
+							fr.Alias[path] = "renamed"
+						case "override-all":
+							fr.Alias["example.com/x/foo"] = "r1"
+							fr.Alias["example.com/y/bar"] = "r2"
+						case "conflict":
+							body := f.Decls[len(f.Decls)-1].(*dst.FuncDecl).Body
+							body.List = append(body.List, &dst.ExprStmt{X: &dst.CallExpr{Fun: &dst.Ident{Name: "C", Path: "example.com/z/" + old}}})
+						}
+						var buf bytes.Buffer
+						var perr error
+						if sig, detail := fw.Try(func() { perr = fr.Fprint(&buf, f) }); sig != "" {
+							c.Violate("restore-failed", sig, id+"\n"+detail, srcs[shape])
+							return
+						}
+						if perr != nil {
+							c.Count("inconclusive_alias_restore_error", 1)
+							return
+						}
+						c.Count("alias_rename_cases", 1)
+						if sp.Name != nil && sp.Name.Name != old {
+							c.Count("alias_actually_renamed", 1)
+							c.Nontrivial(id)
+						}
+						toks, _ := obs.Scan(buf.Bytes())
+						occ := map[string]int{}
+						for _, t := range toks {
+							if t.Tok == token.COMMENT {
+								occ[t.Lit]++
+							}
+						}
+						for t, pt := range texts {
+							if occ[t] != 1 {
+								c.Violate("print-exactly-once", "print-exactly-once:"+pt+":alias-"+mode, fmt.Sprintf("%s: comment %q at %s occurs %d times in the output\n%s", id, t, pt, occ[t], buf.String()), srcs[shape])
+								return
+							}
+						}
+					})
+				}
+			}
+		}
 	}
 }
